@@ -183,13 +183,31 @@ Definition judge_c06 (g : cfg) (u : g06) (o : obs) : list N * g06 :=
                         else if existsb (fun k => memb k kpre) tail_new then [24]
                         else []
                  end in
+  (* (6) restore_packets records every entry of the export whose identifier was free (QoS 0 entries are
+     skipped), whatever the protocol version of the object — an endpoint created as Undetermined included *)
+  let v6 :=
+    match ob_op o with
+    | ORestorePackets l =>
+      let fix go (seen : list N) (l : list pkt) : list N :=
+        match l with
+        | [] => []
+        | q :: t =>
+          if (k_type q =? T_PUBLISH) && (k_qos q =? 0) then go seen t
+          else if memb (k_pid q) seen || used pre (k_pid q) then go seen t
+          else if memb (k_pid q) (store_ids post) && used post (k_pid q) then go (k_pid q :: seen) t
+          else [28; k_pid q]
+        end in
+      go [] l
+    | _ => []
+    end in
   (match v0, v1, v2, v3, v4, v5 with
    | _ :: _, _, _, _, _, _ => v0
    | [], _ :: _, _, _, _, _ => v1
    | [], [], _ :: _, _, _, _ => v2
    | [], [], [], _ :: _, _, _ => v3
    | [], [], [], [], _ :: _, _ => v4
-   | [], [], [], [], [], _ => v5
+   | [], [], [], [], [], _ :: _ => v5
+   | [], [], [], [], [], [] => v6
    end, u').
 
 Definition mon_c06 (cs : list N) : list N :=
